@@ -19,6 +19,12 @@ _SCRATCH = os.path.realpath(REPO) != "/repo"
 EVIDENCE_DIR = os.path.join(VERIF, "build", "scratch_evidence") if _SCRATCH else os.path.join(VERIF, "evidence")
 REPLAY_DIR = os.path.join(VERIF, "build", "scratch_replay") if _SCRATCH else os.path.join(VERIF, "replay")
 JOBS = int(os.environ.get("VERIF_JOBS", "16"))
+try:
+    # several checks (or agents developing them) running at once: do not oversubscribe the 16 cores
+    if "VERIF_JOBS" not in os.environ and os.getloadavg()[0] > 24:
+        JOBS = 4
+except OSError:
+    pass
 BUILD_CACHE_CAP = 4 << 30
 
 GUARD = "BLUETOE_VERIF_HOOKS"
